@@ -56,7 +56,7 @@ SrcCat ==
     em2 |-> [ref |-> "model", axis |-> "y", rel |-> TRUE, diag |-> TRUE],
     ex1 |-> [ref |-> "data", axis |-> "x", rel |-> FALSE, diag |-> TRUE],
     ex2 |-> [ref |-> "model", axis |-> "x", rel |-> TRUE, diag |-> FALSE] ]
-ConExtraNdf == [c1 |-> 1, c2 |-> 2, c3 |-> 1]     \* 1 per simple constraint, n per n-parameter matrix constraint
+ConExtraNdf == [c1 |-> 1, c2 |-> 2, c3 |-> 1, c4 |-> 2]     \* 1 per simple constraint, n per n-parameter matrix constraint
 
 Present == {s \in SrcNames : status[s] # "absent"}
 On == {s \in SrcNames : status[s] = "on"}
